@@ -104,7 +104,17 @@ fn check_for_boolean_directive(
 
     let mut first_line = true;
 
-    for line in code[..subject_pos + 1].lines().rev()
+    /*
+     * Include the subject's first character (so that the subject's own line is always the first
+     * one seen), taking care not to cut a multi-byte character in half.
+     */
+    let subject_end = subject_pos
+        + code[subject_pos..]
+            .chars()
+            .next()
+            .map_or(0, |c| c.len_utf8());
+
+    for line in code[..subject_end].lines().rev()
     {
         if first_line
         {
